@@ -6,28 +6,28 @@ import S3V.Base.Bytes
 party code; the model starts at the parsed JSON value (`Json`, objects as *ordered* member lists in
 which a name may repeat, exactly what a `MapAccess` hands to a visitor) and mirrors
 
-* the derived `Serialize` / `Deserialize` of `Policy`, `Statement`, `Version`, `Effect`,
-  `PrincipalRule`, `ActionRule`, `ResourceRule`, `ConditionRule`, `ConditionKeyValues`
-  (serde_derive 1.0.219: `rename_all = "PascalCase"`, `rename`, `flatten`, no `skip_serializing_if`,
-  no `deny_unknown_fields`), and
-* the hand-written impls of `Principal`, `OneOrMore<T>`, `WildcardOneOrMore<T>`.
+* the derived `Serialize` of `Policy`, `Statement`, … and the derived `Deserialize` of `Policy`, `Version`,
+  `Effect`, `ConditionRule`, `ConditionKeyValues` (serde_derive 1.0.219: `rename_all = "PascalCase"`,
+  `rename`, `flatten`, no `skip_serializing_if`, no `deny_unknown_fields`), and
+* the hand-written impls: `Deserialize for Statement`, and both directions of `Principal`,
+  `OneOrMore<T>`, `WildcardOneOrMore<T>`.
 
-What the derived code does, and the model therefore does (each item checked on the real code by the
+What the code does, and the model therefore does (each item checked on the real code by the
 correspondence run, see `harness/src/bin/h_policy.rs`):
 
 * `Option` fields without `skip_serializing_if` are written as `null`; on reading, `null` and an
   absent member both give `None`.
 * Unknown members are ignored (both structs). A repeated *known* member (`Version`, `Id`,
-  `Statement`; `Sid`, `Effect`, `Condition`) is an error ("duplicate field").
+  `Statement`; `Sid`, `Effect`, `Condition`) is an error.
 * `Policy` has no flattened field, so it is read with `deserialize_struct`, for which serde_json also
   accepts a JSON *array* (`visit_seq`: the fields in declaration order, exactly three elements).
-* `Statement` has flattened fields, so it is read with `deserialize_map` (objects only); every member
-  other than `Sid`/`Effect`/`Condition` is buffered in document order (`__collect`), then each
-  flattened field is read from the buffer by `FlatMapDeserializer::deserialize_enum`: the **first**
-  buffered member whose name is one of the enum's variant names is taken, all later ones (the other
-  variant, or the same name again) are never looked at.
-* the flattened `Option<PrincipalRule>` goes through `__private_visit_untagged_option`, which is
-  `Ok(T::deserialize(d).ok())`: *any* error (no such member, but also a malformed value) gives `None`.
+* `Statement` is written as a map with its three rule enums flattened into it (derived `Serialize`).
+  It is read by a hand-written visitor through `deserialize_map` (objects only) that has one slot per
+  block of the grammar: `Sid`, `Principal`/`NotPrincipal`, `Effect`, `Action`/`NotAction`,
+  `Resource`/`NotResource`, `Condition`. A member named like a block whose slot is already filled is an
+  error (the same name again, or the other name of the pair); the value of each member is read with the
+  reader of its type and *every* error is passed on (in particular a malformed `Principal` value);
+  `Effect`, an action block and a resource block must be there at the end.
 * unit-variant enums (`Version`, `Effect`) read by serde_json's `deserialize_enum` accept the string
   `"Allow"` and also the one-member object `{"Allow": null}`.
 * `IndexMap` deserialisation is `insert` per member in order: a repeated name keeps the position of
@@ -308,59 +308,56 @@ def optCondition : Json → Option (Option ConditionRule)
   | .null => some none
   | j => (conditionOfJson j).map some
 
-/-- state of the derived `visit_map` of `Statement` -/
+/-- state of the hand-written `visit_map` of `Statement`: one slot per block -/
 structure StAcc where
   sid : Option (Option Bytes) := none
+  principal : Option PrincipalRule := none
   effect : Option Effect := none
+  action : Option ActionRule := none
+  resource : Option ResourceRule := none
   condition : Option (Option ConditionRule) := none
-  /-- `__collect`: every other member, in document order -/
-  collect : List (Bytes × Json) := []
 
-/-- one round of the `while let Some(key) = map.next_key()` loop of `Statement`'s `visit_map` -/
+/-- one round of the `while let Some(field) = map.next_key()?` loop of `Statement`'s `visit_map`: the
+    helper `read` refuses a member whose slot is filled, otherwise reads the value (an error of the
+    value's reader is the statement's error) and fills the slot with the wrapped value -/
 def stmtField (acc : StAcc) (kv : Bytes × Json) : Option StAcc :=
   if kv.1 = kSid then
     if acc.sid.isSome then none
     else (optString kv.2).map fun v => { acc with sid := some v }
+  else if kv.1 = kPrincipal then
+    if acc.principal.isSome then none
+    else (principalOfJson kv.2).map fun p => { acc with principal := some (.principal p) }
+  else if kv.1 = kNotPrincipal then
+    if acc.principal.isSome then none
+    else (principalOfJson kv.2).map fun p => { acc with principal := some (.notPrincipal p) }
   else if kv.1 = kEffect then
     if acc.effect.isSome then none
     else (unitEnum effectOfName kv.2).map fun v => { acc with effect := some v }
+  else if kv.1 = kAction then
+    if acc.action.isSome then none
+    else (woomOfJson kv.2).map fun w => { acc with action := some (.action w) }
+  else if kv.1 = kNotAction then
+    if acc.action.isSome then none
+    else (woomOfJson kv.2).map fun w => { acc with action := some (.notAction w) }
+  else if kv.1 = kResource then
+    if acc.resource.isSome then none
+    else (woomOfJson kv.2).map fun w => { acc with resource := some (.resource w) }
+  else if kv.1 = kNotResource then
+    if acc.resource.isSome then none
+    else (woomOfJson kv.2).map fun w => { acc with resource := some (.notResource w) }
   else if kv.1 = kCondition then
     if acc.condition.isSome then none
     else (optCondition kv.2).map fun v => { acc with condition := some v }
-  else some { acc with collect := acc.collect ++ [kv] }
+  else some acc  -- `Field::Other`: the value is skipped
 
-/-- `FlatMapDeserializer::deserialize_enum`: the first buffered member named like one of the two
-    variants. (The real code also blanks the taken slot; no later field asks for the same names.) -/
-def takeVariant (a b : Bytes) (collect : List (Bytes × Json)) : Option (Bytes × Json) :=
-  collect.find? fun kv => decide (kv.1 = a) || decide (kv.1 = b)
-
-/-- flattened `Option<PrincipalRule>`: `Ok(T::deserialize(d).ok())` — never an error -/
-def principalRuleOf (collect : List (Bytes × Json)) : Option PrincipalRule :=
-  match takeVariant kPrincipal kNotPrincipal collect with
-  | none => none
-  | some (k, v) =>
-    match principalOfJson v with
-    | none => none
-    | some p => some (if k = kPrincipal then .principal p else .notPrincipal p)
-
-/-- flattened `ActionRule`: a missing member or a malformed value is an error -/
-def actionRuleOf (collect : List (Bytes × Json)) : Option ActionRule :=
-  match takeVariant kAction kNotAction collect with
-  | none => none
-  | some (k, v) => (woomOfJson v).map fun w => if k = kAction then .action w else .notAction w
-
-def resourceRuleOf (collect : List (Bytes × Json)) : Option ResourceRule :=
-  match takeVariant kResource kNotResource collect with
-  | none => none
-  | some (k, v) => (woomOfJson v).map fun w => if k = kResource then .resource w else .notResource w
-
-/-- derived `visit_map` of `Statement` -/
+/-- `visit_map` of `Statement`: the loop, then `Effect`, the action block and the resource block are
+    required -/
 def statementOfMembers (ms : List (Bytes × Json)) : Option Statement :=
   (ms.foldlM stmtField {}).bind fun acc =>
   acc.effect.bind fun effect =>
-  (actionRuleOf acc.collect).bind fun action =>
-  (resourceRuleOf acc.collect).bind fun resource =>
-  some { sid := acc.sid.getD none, principal := principalRuleOf acc.collect, effect := effect,
+  acc.action.bind fun action =>
+  acc.resource.bind fun resource =>
+  some { sid := acc.sid.getD none, principal := acc.principal, effect := effect,
          action := action, resource := resource, condition := acc.condition.getD none }
 
 /-- `Statement::deserialize` = `deserialize_map`: objects only -/
